@@ -1,3 +1,463 @@
 package main
 
-func selfTestExtra(c *Ctx) {}
+import (
+	"fmt"
+	"io"
+	"os"
+	"path/filepath"
+	"runtime"
+	"sort"
+	"strconv"
+	"strings"
+	"sync"
+	"syscall"
+	"time"
+
+	"github.com/0xrawsec/sod/zzverif/vfs"
+	"github.com/0xrawsec/sod/zzverif/vos"
+	"github.com/0xrawsec/sod/zzverif/vrt"
+)
+
+// Conformance of the environment models with the real thing (DESIGN 2.4). A
+// mismatch is an engine failure (panic => exit 2), never a property verdict.
+
+func selfTestExtra(c *Ctx) {
+	conformVFS(c)
+	conformRWMutex(c)
+}
+
+// ---- vfs against the kernel ------------------------------------------------------------------
+
+type fsStep struct {
+	Op   string
+	P, Q string
+}
+
+func errClass(err error) string {
+	switch {
+	case err == nil:
+		return "ok"
+	case os.IsNotExist(err):
+		return "notexist"
+	case os.IsExist(err):
+		return "exist"
+	}
+	for _, e := range []syscall.Errno{syscall.EISDIR, syscall.ENOTDIR, syscall.ENOTEMPTY, syscall.EINVAL} {
+		if strings.Contains(err.Error(), e.Error()) {
+			return e.Error()
+		}
+	}
+	return "other:" + err.Error()
+}
+
+// runFS executes steps through the vos API below root and renders every result.
+func runFS(root string, steps []fsStep) string {
+	var sb strings.Builder
+	for _, st := range steps {
+		p := filepath.Join(root, st.P)
+		switch st.Op {
+		case "mkdirall":
+			fmt.Fprintf(&sb, "%s;", errClass(vos.MkdirAll(p, 0700)))
+		case "mkdir":
+			fmt.Fprintf(&sb, "%s;", errClass(vos.Mkdir(p, 0700)))
+		case "writefile":
+			fmt.Fprintf(&sb, "%s;", errClass(vos.WriteFile(p, []byte("data-"+st.P), 0600)))
+		case "create":
+			f, err := vos.OpenFile(p, vos.O_CREATE|vos.O_TRUNC|vos.O_RDWR, 0600)
+			if err != nil {
+				fmt.Fprintf(&sb, "%s;", errClass(err))
+				break
+			}
+			_, werr := f.Write([]byte("xy"))
+			cerr := f.Close()
+			fmt.Fprintf(&sb, "ok,%s,%s;", errClass(werr), errClass(cerr))
+		case "stat":
+			fi, err := vos.Stat(p)
+			if err != nil {
+				fmt.Fprintf(&sb, "%s;", errClass(err))
+				break
+			}
+			size := fi.Size()
+			if fi.IsDir() {
+				size = 0
+			}
+			fmt.Fprintf(&sb, "dir=%v,reg=%v,size=%d;", fi.IsDir(), fi.Mode().IsRegular(), size)
+		case "read":
+			f, err := vos.Open(p)
+			if err != nil {
+				fmt.Fprintf(&sb, "%s;", errClass(err))
+				break
+			}
+			d, rerr := io.ReadAll(f)
+			f.Close()
+			fmt.Fprintf(&sb, "%q,%s;", d, errClass(rerr))
+		case "readdir":
+			es, err := vos.ReadDir(p)
+			if err != nil {
+				fmt.Fprintf(&sb, "%s;", errClass(err))
+				break
+			}
+			var names []string
+			for _, e := range es {
+				names = append(names, fmt.Sprintf("%s:%v", e.Name(), e.IsDir()))
+			}
+			fmt.Fprintf(&sb, "%v;", names)
+		case "remove":
+			fmt.Fprintf(&sb, "%s;", errClass(vos.Remove(p)))
+		case "removeall":
+			fmt.Fprintf(&sb, "%s;", errClass(vos.RemoveAll(p)))
+		case "rename":
+			fmt.Fprintf(&sb, "%s;", errClass(vos.Rename(p, filepath.Join(root, st.Q))))
+		}
+	}
+	// final tree
+	var walk func(dir string)
+	walk = func(dir string) {
+		es, err := vos.ReadDir(dir)
+		if err != nil {
+			return
+		}
+		for _, e := range es {
+			full := filepath.Join(dir, e.Name())
+			rel, _ := filepath.Rel(root, full)
+			if e.IsDir() {
+				fmt.Fprintf(&sb, "%s/;", rel)
+				walk(full)
+			} else {
+				d, _ := vos.ReadFile(full)
+				fmt.Fprintf(&sb, "%s=%q;", rel, d)
+			}
+		}
+	}
+	sb.WriteString("|tree:")
+	walk(root)
+	return sb.String()
+}
+
+func conformVFS(c *Ctx) {
+	paths := []string{"d", "d/f", "d/g", "d/sub", "d/sub/f", "missing/f"}
+	ops := []string{"mkdirall", "mkdir", "writefile", "create", "stat", "read", "readdir", "remove", "removeall"}
+	var single []fsStep
+	for _, op := range ops {
+		for _, p := range paths {
+			single = append(single, fsStep{Op: op, P: p})
+		}
+	}
+	for _, p := range paths[:5] {
+		for _, q := range paths[:5] {
+			if p != q {
+				single = append(single, fsStep{Op: "rename", P: p, Q: q})
+			}
+		}
+	}
+	var seqs [][]fsStep
+	for _, a := range single {
+		seqs = append(seqs, []fsStep{a})
+		for _, b := range single {
+			seqs = append(seqs, []fsStep{a, b})
+		}
+	}
+	// length 3: creators first, then every pair of a reduced menu
+	creators := []fsStep{{Op: "mkdirall", P: "d/sub"}, {Op: "mkdirall", P: "d"}}
+	for _, a := range creators {
+		for i, b := range single {
+			for j, x := range single {
+				if (i+j)%3 == c.Shard%3 {
+					seqs = append(seqs, []fsStep{a, b, x})
+				}
+			}
+		}
+	}
+	tmp, err := os.MkdirTemp("", "verif-vfsconf-")
+	if err != nil {
+		panic(err)
+	}
+	defer os.RemoveAll(tmp)
+	n := 0
+	for i, seq := range seqs {
+		if i%c.NShards != c.Shard {
+			continue
+		}
+		// real
+		vfs.Cur = nil
+		real := filepath.Join(tmp, strconv.Itoa(i))
+		os.MkdirAll(real, 0700)
+		want := runFS(real, seq)
+		os.RemoveAll(real)
+		// model
+		m := vfs.New()
+		m.PutDir("/r")
+		vfs.Cur = m
+		got := runFS("/r", seq)
+		vfs.Cur = nil
+		if got != want {
+			panic(fmt.Sprintf("selftest: vfs differs from the kernel on %v:\n  kernel: %s\n  vfs:    %s", seq, want, got))
+		}
+		n++
+	}
+	c.Count("vfs_conformance_sequences", n)
+	c.Count("transitions", n)
+	c.Count("traces_validated_against_impl", n)
+}
+
+// ---- RWMutex model against sync.RWMutex ----------------------------------------------------
+
+// lock programs: per thread a sequence over R (RLock), r (RUnlock), W (Lock), w (Unlock)
+func lockSeqs(maxLen int) []string {
+	var out []string
+	var rec func(cur string, readers int, writer bool)
+	rec = func(cur string, readers int, writer bool) {
+		if len(cur) > 0 {
+			out = append(out, cur)
+		}
+		if len(cur) == maxLen {
+			return
+		}
+		// acquiring while holding the write lock, or Lock while holding a read lock, self-deadlocks:
+		// allowed as the last operation only (the thread parks forever)
+		if !writer {
+			rec(cur+"R", readers+1, false)
+		}
+		if readers > 0 {
+			rec(cur+"r", readers-1, writer)
+		}
+		if !writer && readers == 0 {
+			rec(cur+"W", 0, true)
+		}
+		if writer {
+			rec(cur+"w", readers, false)
+		}
+	}
+	rec("", 0, false)
+	return out
+}
+
+// modelTraces explores every schedule of prog in the model and returns the distinct traces.
+func modelTraces(prog []string) [][]vrt.TraceEv {
+	seen := map[string]bool{}
+	var out [][]vrt.TraceEv
+	vrt.TraceOn = true
+	defer func() { vrt.TraceOn = false }()
+	exploreSchedules(8, 3000, func(prefix []int) *vrt.Exec {
+		var m vrt.RW
+		return vrt.Run(vrt.Config{Prefix: prefix, MaxTicks: 0}, func() {
+			ids := make([]int, len(prog))
+			for i, seq := range prog {
+				seq := seq
+				ids[i] = vrt.GoNamed(fmt.Sprintf("t%d", i), func() {
+					for _, op := range seq {
+						switch op {
+						case 'R':
+							vrt.RLockModel(&m)
+						case 'r':
+							vrt.RUnlockModel(&m)
+						case 'W':
+							vrt.LockModel(&m)
+						case 'w':
+							vrt.UnlockModel(&m)
+						}
+					}
+				})
+			}
+			for _, id := range ids {
+				vrt.Join(id)
+			}
+		})
+	}, func(x *vrt.Exec, choices []int) bool {
+		key := fmt.Sprint(x.Trace, x.Deadlock)
+		if !seen[key] {
+			seen[key] = true
+			out = append(out, x.Trace)
+		}
+		return true
+	})
+	return out
+}
+
+type realThread struct {
+	cmd  chan byte
+	done chan struct{}
+	gid  string
+}
+
+func goid() string {
+	buf := make([]byte, 64)
+	buf = buf[:runtime.Stack(buf, false)]
+	f := strings.Fields(string(buf))
+	if len(f) >= 2 {
+		return f[1]
+	}
+	return "?"
+}
+
+// waitState returns the wait reason of goroutine gid ("" if running / not found).
+func waitState(gid string) string {
+	buf := make([]byte, 1<<16)
+	buf = buf[:runtime.Stack(buf, true)]
+	for _, l := range strings.Split(string(buf), "\n") {
+		if strings.HasPrefix(l, "goroutine "+gid+" [") {
+			return l[strings.Index(l, "[")+1 : strings.Index(l, "]")]
+		}
+	}
+	return ""
+}
+
+func parkedOnLock(state string) bool {
+	return strings.HasPrefix(state, "sync.RWMutex.") || strings.HasPrefix(state, "sync.Mutex.") || strings.HasPrefix(state, "semacquire")
+}
+
+// replayReal drives real goroutines over a real sync.RWMutex in the order of
+// trace and compares "returns" / "parks" with the model at every step.
+func replayReal(prog []string, trace []vrt.TraceEv) string {
+	var mu sync.RWMutex
+	ths := make([]*realThread, len(prog))
+	for i := range prog {
+		t := &realThread{cmd: make(chan byte), done: make(chan struct{}, 1)}
+		ths[i] = t
+		ready := make(chan struct{})
+		go func() {
+			t.gid = goid()
+			close(ready)
+			for op := range t.cmd {
+				switch op {
+				case 'R':
+					mu.RLock()
+				case 'r':
+					mu.RUnlock()
+				case 'W':
+					mu.Lock()
+				case 'w':
+					mu.Unlock()
+				}
+				t.done <- struct{}{}
+			}
+		}()
+		<-ready
+	}
+	// model thread ids are 1.. (0 is the driver)
+	pending := map[int]bool{}
+	finished := func(t *realThread, park bool) string {
+		deadline := time.Now().Add(5 * time.Second)
+		for {
+			select {
+			case <-t.done:
+				return "returned"
+			default:
+			}
+			if parkedOnLock(waitState(t.gid)) {
+				// stable condition: a parked goroutine stays parked until somebody releases
+				return "parked"
+			}
+			if time.Now().After(deadline) {
+				return "undecided"
+			}
+			runtime.Gosched()
+			if !park {
+				time.Sleep(20 * time.Microsecond)
+			}
+		}
+	}
+	for i, ev := range trace {
+		ti := ev.Thread - 1
+		if ti < 0 || ti >= len(ths) {
+			return fmt.Sprintf("trace names thread %d", ev.Thread)
+		}
+		t := ths[ti]
+		switch ev.Kind {
+		case 'a':
+			op := byte('R')
+			if ev.Write {
+				op = 'W'
+			}
+			t.cmd <- op
+			immediate := i+1 < len(trace) && trace[i+1].Thread == ev.Thread && trace[i+1].Kind == 'g'
+			got := finished(t, !immediate)
+			if immediate && got != "returned" {
+				return fmt.Sprintf("step %d: model says thread %d acquires at once, the real lock %s", i, ti, got)
+			}
+			if !immediate && got != "parked" {
+				return fmt.Sprintf("step %d: model says thread %d parks, the real lock %s", i, ti, got)
+			}
+			if !immediate {
+				pending[ti] = true
+			}
+		case 'g':
+			if pending[ti] {
+				// granted later by somebody's release: the real goroutine must complete now
+				deadline := time.Now().Add(5 * time.Second)
+				ok := false
+				for time.Now().Before(deadline) {
+					select {
+					case <-t.done:
+						ok = true
+					default:
+					}
+					if ok {
+						break
+					}
+					runtime.Gosched()
+					time.Sleep(20 * time.Microsecond)
+				}
+				if !ok {
+					return fmt.Sprintf("step %d: model grants the lock to thread %d, the real goroutine stays %s", i, ti, waitState(t.gid))
+				}
+				delete(pending, ti)
+			}
+		case 'u':
+			op := byte('r')
+			if ev.Write {
+				op = 'w'
+			}
+			t.cmd <- op
+			<-t.done
+		}
+	}
+	// whoever is still pending in the model must be parked for real
+	for ti := range pending {
+		if st := waitState(ths[ti].gid); !parkedOnLock(st) {
+			return fmt.Sprintf("end: model leaves thread %d blocked, the real goroutine is %q", ti, st)
+		}
+	}
+	// release the goroutines that are not blocked (blocked ones are leaked on purpose)
+	for ti, t := range ths {
+		if !pending[ti] {
+			close(t.cmd)
+		}
+	}
+	return ""
+}
+
+func conformRWMutex(c *Ctx) {
+	seqs2 := lockSeqs(3)
+	seqs3 := lockSeqs(2)
+	var progs [][]string
+	for _, a := range seqs2 {
+		for _, b := range seqs2 {
+			progs = append(progs, []string{a, b})
+		}
+	}
+	for _, a := range seqs3 {
+		for _, b := range seqs3 {
+			for _, d := range seqs3 {
+				progs = append(progs, []string{a, b, d})
+			}
+		}
+	}
+	sort.SliceStable(progs, func(i, j int) bool { return len(progs[i]) < len(progs[j]) })
+	ntr := 0
+	for i, prog := range progs {
+		if i%c.NShards != c.Shard {
+			continue
+		}
+		for _, tr := range modelTraces(prog) {
+			if msg := replayReal(prog, tr); msg != "" {
+				panic(fmt.Sprintf("selftest: the RWMutex model disagrees with sync.RWMutex on program %v, trace %v: %s", prog, tr, msg))
+			}
+			ntr++
+		}
+	}
+	c.Count("rwmutex_conformance_programs", len(progs)/c.NShards)
+	c.Count("rwmutex_conformance_traces", ntr)
+	c.Count("traces_validated_against_impl", ntr)
+	c.Count("transitions", ntr)
+}
